@@ -22,6 +22,9 @@ HARNESSES = [
     dict(name="main_tar2sqfs", file="main_tar2sqfs.c", label="proved",
          fp={"destroy": ["in_destroy", "it_destroy"]},
          timeout=300, cases=[dict(id="all", tier="quick")]),
+    dict(name="meta_flush", file="meta_flush.c", label="proved",
+         fp=dict(_FP_FILE, do_block="c14_do_block", destroy="c14_obj_destroy"),
+         timeout=600, cases=[dict(id="all", tier="quick")]),
     dict(name="bp_fragment", file="bp_fragment.c",
          label="bounded(block index <= 11, payload <= 16)", fp=_FP_BP, unwind=6, timeout=900,
          cases=[dict(id="avail0", defines={"INODE_AVAIL": 0}, tier="quick"),
